@@ -806,7 +806,21 @@ class Engine:
             out = []
             for s, w in self.narrow(st, v):
                 if isinstance(w, SAny):
-                    raise Unsupported(f"attribute {attr} of untyped value at {self.loc(node)}")
+                    # not a primitive: the path may already pin its class (an isinstance test above): try the loaded record classes that
+                    # have this attribute; if some other shape remains possible the read is outside the modelled subset
+                    rest = []
+                    for ci in list(self.reg.classes.values()):
+                        if ci.kind != "record" or not (attr in ci.fields or attr in ci.methods or attr in ci.class_attrs):
+                            continue
+                        c = sym.type_constraint(w.t, TClass(ci.name), self.reg)
+                        rest.append(z3.Not(z3.And(Val.is_rec(w.t), Val.rcls(w.t) == ci.id)))
+                        if s.feasible([c]):
+                            s2 = s.copy()
+                            s2.assume(c)
+                            out.extend(self.getattr(s2, sym.from_val(w.t, TClass(ci.name), self.reg), attr, node))
+                    if not rest or s.feasible(rest):
+                        raise Unsupported(f"attribute {attr} of untyped value at {self.loc(node)}")
+                    continue
                 out.extend(self.getattr(s, w, attr, node))
             return out
         if isinstance(v, SRef) and v.ty.kind == "class":
